@@ -197,7 +197,8 @@ def run_case(rng, idx, tier, lane, ctx):
             if r0.ok:
                 exp0 = LC.ref_cost(c, r0.x[:, c.obs_idx])
                 ok_0 = abs(again - exp0) <= 1e-6 * (1 + abs(exp0)) + float(np.sum(np.abs(RL.dcost(c.kind, c.y, r0.x[:, c.obs_idx], c.spread, c.weights)))) * tol_x
-            if not (ok_b or ok_0):
+            undecidable = not np.isfinite(exp) or (exp0 is not None and not np.isfinite(exp0))     # the reference loss itself is not finite
+            if not (ok_b or ok_0) and not undecidable:
                 bad("after the caller overwrote the vector it had passed to costIV, cost(theta) is the loss for neither the supplied nor the "
                     "original initial values (the loss object aliases caller memory)", got=again, expected_for_supplied_x0=exp, expected_for_original_x0=exp0)
         except Exception as e:
